@@ -225,13 +225,17 @@ def fresh_many(specs, timeout=300):
         if any(isinstance(a, dict) and "error" in a for a in out):
             raise RuntimeError("history process failed: %r" % [a for a in out if isinstance(a, dict)][:1])
         return out
-    except Exception:
+    except BaseException as e:
+        # whatever interrupted the exchange (also the per-case CPU budget of harness/main.py, a BaseException raised from a signal
+        # handler): the helper may hold an unread answer — it is discarded, never reused
         try:
             if _ZYG["p"] is not None:
                 _ZYG["p"].kill()
         except Exception:
             pass
         _ZYG["p"] = None
+        if not isinstance(e, Exception):
+            raise
         return [fresh(spec, timeout) for spec in specs]
 
 
